@@ -102,6 +102,12 @@ pub fn main() -> i32 {
 
 /// Seed of the i-th run of a batch.
 pub fn run_seed(base: u64, engine: &str, mode: &str, i: u64) -> u64 {
+    if mode == "mux-header" {
+        // Enumeration: run i sends header value (i + 65536 * k) mod 2^16; the high bits vary the
+        // rest of the scenario with the base seed.
+        // Bit-reversed index: a short batch still spreads over all frame kinds / stream kinds.
+        return ((base % 1000) << 16) | ((i as u16).reverse_bits() as u64) | (1 << 40);
+    }
     let mut h = crate::kit::hash_bytes(engine.as_bytes());
     h = crate::kit::mix(h, crate::kit::hash_bytes(mode.as_bytes()));
     h = crate::kit::mix(h, base);
